@@ -152,3 +152,15 @@ func init() {
 		},
 	}
 }
+
+func init() {
+	properties["C09"] = Property{
+		Level: "exploration",
+		Rule: "cases = generated programs whose string, []byte, [N]byte and &[]byte literals are unique high-entropy markers with lengths drawn in and around the window (7, 8, 9, 12, 24, 64, 255-257, 700, 2047, 2048, 2049) in 24 syntactic positions (package variables, struct fields, map keys and values, slice elements, init, returns, arguments incl. any and generic parameters, method bodies, closures, locals, case labels, folded concatenations; plus the exempt contexts const declaration, typed constant, nosplit function), built with garble -literals (+ -tiny, -seed, module-only GOGARBLE); each marker is one evaluation, scored only if it is in the window, not in a documented exempt context, present in the regular binary and printed by the garbled program; then it must be absent from the garbled binary, and so must the -seed text. Non-trivial = scored marker; distinct = (position, form, length bucket).",
+		Assumptions: append([]string{"byte composite literals are kept at most 300 bytes long to bound compile time"}, commonAssumptions...),
+		ReplayUnit:  "TestC09Replay",
+		Units: []Unit{
+			{Name: "TestC09", Kind: "e2e", Checks: [2]int{5, 40}, Workers: [2]int{3, 8}},
+		},
+	}
+}
